@@ -57,26 +57,37 @@ def status_functions(prog):
     return out
 
 
-def classify_for(f):
+def classify_for(f, nonzero_fails=False):
+    """nonzero_fails: the function follows the `0 = fine, anything else = failed` convention (libasn1compiler); otherwise
+    only a negative value is a failure (libasn1fix: 1 is a warning)."""
     ptr = f.ret_type.rstrip().endswith("*")
 
     def classify(b, i, e, env=None):
-        env = env or {}
+        env = dict(env or {})
+        facts = env.pop(("__facts__", None), ())
         ex = e.get("expr")
         if not ex:
             return "success"
         if "const" in ex:
             if ptr:
                 return "fail" if ex["const"] == 0 else "success"
-            return "fail" if ex["const"] < 0 else "success"
+            return "fail" if (ex["const"] < 0 or (nonzero_fails and ex["const"] != 0)) else "success"
         t = strip_casts(ex["tree"])
         if is_var(t):
             v = env.get((t[1], None))
             if isinstance(v, int):
-                return "fail" if v < 0 else "success"
+                return "fail" if (v < 0 or (nonzero_fails and v != 0)) else "success"
+            # what the branches taken on this path say about the variable
+            if assume.fact_query(facts, ["bin", "<", t, ["int", 0]]) is True:
+                return "fail"
+            if nonzero_fails and assume.fact_query(facts, ["bin", "!=", t, ["int", 0]]) is True:
+                return "fail"
             return "unknown:var"
         if isinstance(t, list) and t and t[0] == "cond":
             return "unknown:ternary"
+        v = assume.eval_under(t, None, None, {k: x for k, x in env.items() if isinstance(x, int)})
+        if v is not None:
+            return "fail" if (v < 0 or (nonzero_fails and v != 0)) else "success"
         return "unknown:expr"
     return classify
 
@@ -200,12 +211,66 @@ def r11_2(prog, tab, siteok, sf):
     return r
 
 
+def r11_3(prog, tab, rid="R11.3", where="libasn1fix/", fatal=None, floor=60, exckey="r11_3_exceptions", nonzero_fails=False):
+    """A fatal diagnostic is never followed by a non-failing return.  Sites: every FATAL(...) (arg->eh with severity 1)
+    in a libasn1fix function that returns int.  From the site the CFG is explored with the constants assigned on the
+    path tracked (so `r_value = -1; ...; return r_value;` is a failing return, and RET2RVAL's `if(rv) break` keeps
+    it); a reachable `return 0`/`return 1`, or a return of a variable whose last value on the path is 0/1, means
+    the message is printed and the compilation carries on to code generation with exit status 0."""
+    fatal = fatal or is_fatal_call
+    r = Rule(rid, "once a function of %s has issued a FATAL diagnostic it cannot return success or a mere warning" % where.rstrip("/"), floor=floor)
+    exc = {(x["function"], x["key"]): x["reason"] for x in tab.get(exckey, [])}
+    for f in sorted(prog.funcs.values(), key=lambda f: f.key):
+        if where not in f.relfile:
+            continue
+        sites = sorted([(b, i, e) for b, i, e in f.events() if fatal(e)], key=lambda x: (x[2].get("line") or 0, x[0].id, x[1]))
+        if not sites or f.ret_type not in ("int", "void"):
+            continue        # pointer-returning lookups answer `found / not found`, not a status: out of this rule's scope
+        classify = classify_for(f, nonzero_fails)
+        n = 0
+        seen_msgs = {}
+        for b, i, e in sites:
+            n += 1
+            msg = ""
+            for a in e.get("args", [])[1:2]:
+                for nd in walk(a.get("tree")):
+                    if nd[0] == "str":
+                        msg = str(nd[1])
+                        break
+            msg = " ".join(msg.split())[:44]
+            dup = seen_msgs.get(msg, 0) + 1
+            seen_msgs[msg] = dup
+            key = 'FATAL "%s"%s' % (msg, "" if dup == 1 else "#%d" % dup) if msg else "FATAL@%d" % n
+            if (f.name, key) in exc:
+                r.exc(f, key, exc[(f.name, key)], e["line"])
+                continue
+            if f.ret_type == "void":
+                r.bad(f, key, "FATAL issued in a void function: the failure cannot reach the caller", e["line"])
+                continue
+            subj = assume.Subject("call", callid=e["id"])
+            bad = None
+            for fe in (False, True):
+                hits = assume.explore(f, b, i, subj, 1, classify, origin_callid=e.get("id"), from_entry=fe, subject_return_ok=False, rel_facts_only=True)
+                hits = [h for h in hits if h[0] != "abort"]
+                bad = next((h for h in hits if h[0] != "fail"), None)
+                if bad is None:
+                    break
+            if bad is None:
+                r.ok(f, key, "every return reachable after this diagnostic is negative", e["line"])
+            else:
+                kind, rb, ri, re_, path, lost = bad
+                r.bad(f, key, "after this FATAL diagnostic control reaches the return at line %s (%s): the error is printed but the "
+                              "function reports %s" % (re_.get("line"), kind, "success" if kind == "success" else "an undetermined status"),
+                      e["line"], witness={"path": guards.path_lines(f, list(path))})
+    return r
+
+
 def run(ctx):
     prog = ctx.prog("K")
     tab = load_tables("c11")
     r1, siteok, sf = r11_1(prog, tab)
     r2 = r11_2(prog, tab, siteok, sf)
-    return [r1, r2]
+    return [r1, r2, r11_3(prog, tab)]
 
 
 def thorough(ctx):
